@@ -202,12 +202,14 @@ type PacketPool struct {
 // header. See also WithHeader
 func (p *PacketPool) Get() *Packet {
 	pkt := <-p.pool
+	verifOnGet(pkt)
 	pkt.reset(p.headroom)
 	return pkt
 }
 
 // Put returns the given packet to the pool.
 func (p *PacketPool) Put(pkt *Packet) {
+	verifOnPut(pkt)
 	p.pool <- pkt
 }
 
